@@ -21,11 +21,14 @@ def load_harnesses(prop):
 
 
 def _job(args):
-    prop, hid, pidx, tier, seed = args
+    prop, hid, pidx, tier, seed = args[:5]
+    shard = args[5] if len(args) > 5 else None
     try:
         hs, _ = load_harnesses(prop)
         h = [x for x in hs if x.id == hid][0]
-        params = h.params[tier][pidx]
+        params = dict(h.params[tier][pidx])
+        if shard is not None:
+            o = dict(params.get("_opts", {})); o["shard"] = shard; params["_opts"] = o
         from vk import run
         return run.run_harness(h, params, tier, seed)
     except BaseException as e:
@@ -79,8 +82,14 @@ def main(argv=None):
     for h in hs:
         if a.only and a.only not in h.id:
             continue
-        for i, _ in enumerate(h.params.get(a.tier, h.params.get("quick", [{}]))):
-            jobs.append((prop, h.id, i, a.tier, seed))
+        for i, ps in enumerate(h.params.get(a.tier, h.params.get("quick", [{}]))):
+            nsh = int(ps.get("_shards", h.opts.get("shards", 1)))
+            if nsh > 1:
+                nbits = max(1, (nsh - 1).bit_length())
+                for sidx in range(2 ** nbits):
+                    jobs.append((prop, h.id, i, a.tier, seed, (sidx, nbits)))
+            else:
+                jobs.append((prop, h.id, i, a.tier, seed))
     results = []
     ctxm = mp.get_context("fork")
     if a.jobs <= 1 or len(jobs) == 1:
